@@ -134,6 +134,41 @@ def d2_decimation(ctx):
                   "window edges are not tapered symmetrically over samples_taper samples", key="taper-sides")
 
 
+def d4_sync_not_tapered(ctx):
+    ctx.rule("D4", "the array that extract_lfp tapers/filters in place shares no buffer with the sync rows handed to _ind2save")
+    repo = ctx.repo
+    from sa.calls import bind
+    from sa.common import buffer_roots, param_mutations, resolved_calls
+    lfp = repo.fn(CLS + ".extract_lfp")
+    ind = repo.fn(CLS + "._ind2save")
+    mut_params = sorted({p for _, _, p in param_mutations(repo, lfp, [x for x in lfp.params if x != "self"])})
+    if not mut_params:
+        ctx.note("extract_lfp no longer modifies its argument in place: D4 holds trivially")
+    n = 0
+    for q in (CLS + "._process_NP24", CLS + "._process_NP21"):
+        fi = repo.fn(q)
+        du = DefUse(fi.node)
+        tainted = set()
+        for c in resolved_calls(repo, fi, CLS + ".extract_lfp"):
+            b = bind(c, lfp)
+            for p in mut_params:
+                if p in b.bound:
+                    tainted |= buffer_roots(repo, fi, du, b.bound[p], c)
+        for c in resolved_calls(repo, fi, CLS + "._ind2save"):
+            b = bind(c, ind)
+            sy = b.bound.get("chunk_sync")
+            if sy is None:
+                continue
+            n += 1
+            roots = buffer_roots(repo, fi, du, sy, c)
+            shared = {r for r in roots & tainted if not r.startswith("fresh@")}
+            ctx.check(not shared, fi, c, f"sync buffer roots {sorted(roots)} ; tapered buffer roots {sorted(tainted)}", "sync words are read from a buffer the low-pass stage never touches",
+                      f"the sync handed to _ind2save is a view of the buffer {sorted(shared)} that extract_lfp tapers in place (its `{', '.join(mut_params)}` argument): the first and last "
+                      "sync words of the file are scaled by the cosine ramp instead of being every 12th AP sync word", key="sync-alias:" + q)
+    if n == 0:
+        raise AnchorMissing("no _ind2save call with a sync argument found")
+
+
 def d3_metadata(ctx):
     ctx.rule("D3", "LF metadata: imSampRate = fs_lf = 2500, fs_lf * ratio == fs_ap; channel counts from the written column list")
     repo = ctx.repo
@@ -179,3 +214,4 @@ def run(ctx):
     ctx.run(d1_tiling)
     ctx.run(d2_decimation)
     ctx.run(d3_metadata)
+    ctx.run(d4_sync_not_tapered)
